@@ -260,7 +260,7 @@ known_or_unknown(const char *name, int unknown)
 int
 main_kernel(void)
 {
-    int which = sym_choice("which", 0, 5), j;
+    int which = sym_choice("which", 0, 8), j;
     char nm[16];
     if (which == 0) {
         edge_sort_t e[3];
@@ -338,6 +338,37 @@ main_kernel(void)
         CHECK3(cmp_migration, g[0], g[1], g[2],
             g[0].time == g[1].time && g[0].left == g[1].left && g[0].source == g[1].source && g[0].dest == g[1].dest
                 && g[0].node == g[1].node);
+    } else if (which == 6) {
+        /* the comparator behind build_index (insertion and removal orders) */
+        index_sort_t x[3];
+        for (j = 0; j < 3; j++) {
+            memset(&x[j], 0, sizeof(x[j]));
+            x[j].first = known_or_unknown(sym_nm(nm, "a", j), 0);
+            x[j].second = known_or_unknown(sym_nm(nm, "b", j), 0);
+            x[j].third = sym_i32(sym_nm(nm, "c", j));
+            x[j].fourth = sym_i32(sym_nm(nm, "d", j));
+        }
+        CHECK3(cmp_index_sort, x[0], x[1], x[2],
+            x[0].first == x[1].first && x[0].second == x[1].second && x[0].third == x[1].third && x[0].fourth == x[1].fourth);
+    } else if (which == 7) {
+        /* the comparator of the simplifier's segment queue */
+        tsk_segment_t g[3];
+        for (j = 0; j < 3; j++) {
+            memset(&g[j], 0, sizeof(g[j]));
+            g[j].left = known_or_unknown(sym_nm(nm, "l", j), 0);
+            g[j].node = sym_i32(sym_nm(nm, "n", j));
+        }
+        CHECK3(cmp_segment, g[0], g[1], g[2], g[0].left == g[1].left && g[0].node == g[1].node);
+    } else if (which == 8) {
+        /* the comparator of EdgeTable.squash */
+        tsk_edge_t e[3];
+        for (j = 0; j < 3; j++) {
+            memset(&e[j], 0, sizeof(e[j]));
+            e[j].left = known_or_unknown(sym_nm(nm, "l", j), 0);
+            e[j].parent = sym_i32(sym_nm(nm, "p", j));
+            e[j].child = sym_i32(sym_nm(nm, "c", j));
+        }
+        CHECK3(cmp_edge_cl, e[0], e[1], e[2], e[0].left == e[1].left && e[0].parent == e[1].parent && e[0].child == e[1].child);
     } else {
         individual_canonical_sort_t v[3];
         for (j = 0; j < 3; j++) {
